@@ -340,6 +340,13 @@ class TheJoker:
             else:
                 ln_prior = return_logprobs
 
+            if max_prior_samples is not None:
+                # same budget as on the cache-file path: only use the first
+                # max_prior_samples prior samples
+                prior_samples = prior_samples[:max_prior_samples]
+                if ln_prior is not None and ln_prior is not False and ln_prior is not True:
+                    ln_prior = ln_prior[:max_prior_samples]
+
             samples = iterative_rejection_inmem(
                 joker_helper,
                 prior_samples,
